@@ -81,7 +81,17 @@ def sig_for(case, ev, sym, core=None):
     for q in ev.get("data", []):
         if q[3] == "":
             preds.setdefault(q[0], set()).add(q[1])
-    if any(c in DELIMS for cs in ev["qtlits"] for c in cs):
+    def inner_has_delimiter():
+        # the text of the inner object of every quoted-triple term (class representatives may contain white space themselves,
+        # e.g. the annotation delimiters "{| a |}" of the ordinary class)
+        for q in ev.get("data", []):
+            for t in q[:3]:
+                if isinstance(t, str) and t.startswith("<<") and t.endswith(">>"):
+                    parts = t[2:-2].strip().split(" ", 2)
+                    if len(parts) == 3 and any(ch in ' \t\n\r"\\<>' for ch in parts[2]):
+                        return True
+        return False
+    if any(c in DELIMS for cs in ev["qtlits"] for c in cs) or inner_has_delimiter():
         trig = "quoted-triple-inner-literal-with-delimiter"
     elif case["fmt"] == "ttl" and any(len(v) > 1 for v in preds.values()):
         trig = "subject-with-several-predicates"        # Turtle groups them with ';' over several lines
